@@ -120,6 +120,37 @@ type hvRx struct {
 	Saoluma, Saochroma int
 }
 
+type hvLoc struct {
+	ID                    int
+	Scaled, Region, Phase []int
+}
+
+type hvMl struct {
+	On, Poc, Infer bool
+	Inferid        int
+	Locs           []hvLoc
+	Cm             bool
+	Cmlayers       []int
+	Cmbd           []int
+	Cmres, Cmflc   int
+	Cmcoded        bool
+}
+
+type hvD3 struct {
+	On, Dlts      bool
+	Layers, Depth int
+	Dlt           string
+}
+
+type hvScc struct {
+	On, Currpic, Ract, Actpresent bool
+	Actoff                        []int
+	Palon                         bool
+	Pal                           []int
+	Mono                          bool
+	Lbd, Cbd                      int
+}
+
 type hvPpsV struct {
 	ID, Spsid                                     int
 	Depslices, Outflag                            bool
@@ -138,6 +169,9 @@ type hvPpsV struct {
 	Pmerge                                        int
 	Shext, Ext, Rxon                              bool
 	Rx                                            hvRx
+	Mlx                                           hvMl
+	D3x                                           hvD3
+	Sccx                                          hvScc
 }
 
 type hvSliceV struct {
@@ -699,6 +733,161 @@ func hvPpsEq(k *cmp, pps *hevc.PPS, p hvPpsV) {
 			k.eq("log2_sao_offset_scale_chroma", x.Log2SaoOffsetScaleChroma, p.Rx.Saochroma)
 		} else if p.Rxon {
 			k.m = append(k.m, mism{"pps_range_extension", nil, "present"})
+		}
+		hvPpsExtEq(k, pps, p)
+	}
+}
+
+// hvPpsExtEq compares the multilayer (with colour mapping table), 3D and SCC extensions of a PPS with the vector.
+func hvPpsExtEq(k *cmp, pps *hevc.PPS, p hvPpsV) {
+	k.eq("pps_multilayer_extension_flag", pps.MultilayerExtensionFlag, p.Mlx.On)
+	k.eq("pps_3d_extension_flag", pps.D3ExtensionFlag, p.D3x.On)
+	k.eq("pps_scc_extension_flag", pps.SccExtensionFlag, p.Sccx.On)
+	k.eq("pps_extension_4bits", pps.Extension4bits, 0)
+	if p.Mlx.On {
+		x := pps.MultilayerExtension
+		if x == nil {
+			k.m = append(k.m, mism{"pps_multilayer_extension", nil, "present"})
+		} else {
+			k.eq("poc_reset_info_present_flag", x.PocResetInfoPresentFlag, p.Mlx.Poc)
+			k.eq("pps_infer_scaling_list_flag", x.InferScalingListFlag, p.Mlx.Infer)
+			if p.Mlx.Infer {
+				k.eq("pps_scaling_list_ref_layer_id", x.ScalingListRefLayerId, p.Mlx.Inferid)
+			}
+			k.eq("num_ref_loc_offsets", x.NumRefLocOffsets, len(p.Mlx.Locs))
+			k.eq("number of ref_loc_offset_layer_id", len(x.RefLocOffsetLayerIds), len(p.Mlx.Locs))
+			for i, l := range p.Mlx.Locs {
+				if i >= len(x.RefLocOffsetLayerIds) {
+					break
+				}
+				k.eq("ref_loc_offset_layer_id", x.RefLocOffsetLayerIds[i], l.ID)
+				o, ok := x.RefLocOffsets[uint8(l.ID)]
+				if !ok {
+					k.m = append(k.m, mism{"ref loc offsets of layer", nil, l.ID})
+					continue
+				}
+				k.eq("scaled_ref_layer_offset_present_flag", o.ScaledRefLayerOffsetPresentFlag, len(l.Scaled) > 0)
+				if len(l.Scaled) == 4 {
+					k.eq("scaled_ref_layer_left_offset", o.ScaledRefLayerLeftOffset, l.Scaled[0])
+					k.eq("scaled_ref_layer_top_offset", o.ScaledRefLayerTopOffset, l.Scaled[1])
+					k.eq("scaled_ref_layer_right_offset", o.ScaledRefLayerRightOffset, l.Scaled[2])
+					k.eq("scaled_ref_layer_bottom_offset", o.ScaledRefLayerBottomOffset, l.Scaled[3])
+				}
+				k.eq("ref_region_offset_present_flag", o.RefRegionOffsetPresentFlag, len(l.Region) > 0)
+				if len(l.Region) == 4 {
+					k.eq("ref_region_left_offset", o.RefRegionLeftOffset, l.Region[0])
+					k.eq("ref_region_top_offset", o.RefRegionTopOffset, l.Region[1])
+					k.eq("ref_region_right_offset", o.RefRegionRightOffset, l.Region[2])
+					k.eq("ref_region_bottom_offset", o.RefRegionBottomOffset, l.Region[3])
+				}
+				k.eq("resample_phase_set_present_flag", o.ResamplePhaseSetPresentFlag, len(l.Phase) > 0)
+				if len(l.Phase) == 4 {
+					k.eq("phase_hor_luma", o.PhaseHorLuma, l.Phase[0])
+					k.eq("phase_ver_luma", o.PhaseVerLuma, l.Phase[1])
+					k.eq("phase_hor_chroma_plus8", o.PhaseHorChromaPlus8, l.Phase[2])
+					k.eq("phase_ver_chroma_plus8", o.PhaseVerChromaPlus8, l.Phase[3])
+				}
+			}
+			k.eq("colour_mapping_enabled_flag", x.ColourMappingEnabledFlag, p.Mlx.Cm)
+			if p.Mlx.Cm && x.ColourMappingTable != nil {
+				c := x.ColourMappingTable
+				k.eq("num_cm_ref_layers_minus1", c.NumCmRefLayersMinus1, len(p.Mlx.Cmlayers)-1)
+				k.eq("number of cm_ref_layer_id", len(c.RefLayerId), len(p.Mlx.Cmlayers))
+				for i, w := range p.Mlx.Cmlayers {
+					if i < len(c.RefLayerId) {
+						k.eq("cm_ref_layer_id", c.RefLayerId[i], w)
+					}
+				}
+				k.eq("cm_octant_depth", c.OctantDepth, 0)
+				k.eq("cm_y_part_num_log2", c.YPartNumLog2, 0)
+				k.eq("luma_bit_depth_cm_input_minus8", c.LumaBitDepthCmInputMinus8, p.Mlx.Cmbd[0])
+				k.eq("chroma_bit_depth_cm_input_minus8", c.ChromaBitDepthCmInputMinus8, p.Mlx.Cmbd[1])
+				k.eq("luma_bit_depth_cm_output_minus8", c.LumaBitDepthCmOutputMinus8, p.Mlx.Cmbd[2])
+				k.eq("chroma_bit_depth_cm_output_minus8", c.ChromaBitDepthCmOutputMinus8, p.Mlx.Cmbd[3])
+				k.eq("cm_res_quant_bits", c.ResQuantBits, p.Mlx.Cmres)
+				k.eq("cm_delta_flc_bits_minus1", c.DeltaFlcBitsMinus1, p.Mlx.Cmflc)
+				k.eq("number of octants", len(c.Octants), 1)
+				for _, oct := range c.Octants {
+					k.eq("coded_res_flag[0]", oct[0].CodedResFlag, p.Mlx.Cmcoded)
+					for j := 1; j < 4; j++ {
+						k.eq("coded_res_flag[j]", oct[j].CodedResFlag, false)
+					}
+					if p.Mlx.Cmcoded {
+						for cidx := 0; cidx < 3; cidx++ {
+							k.eq("res_coeff_q", oct[0].CodedRes[cidx].ResCoeffQ, cidx)
+						}
+						k.eq("res_coeff_s[1]", oct[0].CodedRes[1].ResCoeffS, true)
+					}
+				}
+			} else if p.Mlx.Cm {
+				k.m = append(k.m, mism{"colour_mapping_table", nil, "present"})
+			}
+		}
+	}
+	if p.D3x.On {
+		x := pps.D3Extension
+		if x == nil {
+			k.m = append(k.m, mism{"pps_3d_extension", nil, "present"})
+		} else {
+			k.eq("dlts_present_flag", x.DltsPresentFlag, p.D3x.Dlts)
+			if p.D3x.Dlts {
+				k.eq("pps_depth_layers_minus1", x.NumDepthLayersMinus1, p.D3x.Layers)
+				k.eq("pps_bit_depth_for_depth_layers_minus8", x.BitDepthForDepthLayersMinus8, p.D3x.Depth)
+				k.eq("number of depth layers", len(x.DepthLayers), p.D3x.Layers+1)
+				for _, l := range x.DepthLayers {
+					k.eq("dlt_flag", l.DltFlag, p.D3x.Dlt != "off")
+					k.eq("dlt_pred_flag", l.DltPredFlag, false)
+					k.eq("dlt_val_flags_present_flag", l.DltValFlagsPresentFlag, false)
+					if p.D3x.Dlt != "off" && l.DeltaDlt != nil {
+						k.eq("num_val_delta_dlt", l.DeltaDlt.NumValDeltaDlt, 0)
+					} else if p.D3x.Dlt != "off" {
+						k.m = append(k.m, mism{"delta_dlt", nil, "present"})
+					}
+				}
+			}
+		}
+	}
+	if p.Sccx.On {
+		x := pps.SccExtension
+		if x == nil {
+			k.m = append(k.m, mism{"pps_scc_extension", nil, "present"})
+		} else {
+			k.eq("pps_curr_pic_ref_enabled_flag", x.CurrPicRefEnabledFlag, p.Sccx.Currpic)
+			k.eq("residual_adaptive_colour_transform_enabled_flag", x.ResidualAdaptiveColourTransformEnabledFlag, p.Sccx.Ract)
+			if p.Sccx.Ract {
+				k.eq("pps_slice_act_qp_offsets_present_flag", x.SliceActQpOffsetsPresentFlag, p.Sccx.Actpresent)
+				k.eq("pps_act_y_qp_offset_plus5", x.ActYQpOffsetPlus5, p.Sccx.Actoff[0])
+				k.eq("pps_act_cb_qp_offset_plus5", x.ActCbQpOffsetPlus5, p.Sccx.Actoff[1])
+				k.eq("pps_act_cr_qp_offset_plus3", x.ActCrQpOffsetPlus3, p.Sccx.Actoff[2])
+			}
+			k.eq("pps_palette_predictor_initializers_present_flag", x.PalettePredictorInitializersPresentFlag, p.Sccx.Palon)
+			if p.Sccx.Palon {
+				k.eq("pps_num_palette_predictor_initializers", x.NumPalettePredictorInitializers, len(p.Sccx.Pal))
+				if len(p.Sccx.Pal) > 0 {
+					k.eq("monochrome_palette_flag", x.MonochromePaletteFlag, p.Sccx.Mono)
+					k.eq("luma_bit_depth_entry_minus8", x.LumaBitDepthEntryMinus8, p.Sccx.Lbd)
+					comps := 3
+					if p.Sccx.Mono {
+						comps = 1
+					} else {
+						k.eq("chroma_bit_depth_entry_minus8", x.ChromaBitDepthEntryMinus8, p.Sccx.Cbd)
+					}
+					k.eq("number of palette components", len(x.PalettePredictorInitializer), comps)
+					for ci, comp := range x.PalettePredictorInitializer {
+						k.eq("number of palette entries", len(comp), len(p.Sccx.Pal))
+						for i, v := range comp {
+							if i >= len(p.Sccx.Pal) {
+								break
+							}
+							want := p.Sccx.Pal[i]
+							if ci == 2 {
+								want = len(p.Sccx.Pal) - 1 - i
+							}
+							k.eq("pps_palette_predictor_initializer", v, want)
+						}
+					}
+				}
+			}
 		}
 	}
 }
